@@ -208,6 +208,8 @@ pub struct Ctx {
     pub only: Option<u64>,
     /// only run the cases of this digest block: (block, block size)
     pub only_block: Option<(u64, u64)>,
+    /// this worker runs the monitor's solo phase (after the others, alone on the machine)
+    pub solo: bool,
     index: u64,
     pub max_viol_records: usize,
     viol_sigs: HashSet<String>,
@@ -226,6 +228,7 @@ impl Ctx {
             trace: None,
             only: None,
             only_block: None,
+            solo: false,
             index: 0,
             max_viol_records: 200,
             viol_sigs: HashSet::new(),
